@@ -741,7 +741,7 @@ func (d *driver) finalState(w *world, cfg progCfg, model map[uint64]string) {
 						fmt.Sprintf("%s: after all operations returned %s(%d) still returns an accessor although the block was removed (directory %q)", cfg.ID, via, b.H, fa),
 						map[string]any{"prog": cfg.ID, "height": b.H})
 				}
-				mm, n := storeref.ReadBack(d.ctx, acc, b.Ref, storeref.Opts{Rnd: rand.New(rand.NewSource(cfg.Seed)), MaxSamples: 64, LowerFirst: true})
+				mm, n := storeref.ReadSome(d.ctx, acc, b.Ref, rand.New(rand.NewSource(cfg.Seed)), 6, true)
 				d.rep.Count("reads_compared", int64(n))
 				if len(mm) > 0 {
 					d.rep.Violate("C08/reader-saw-wrong-data/final-"+via,
